@@ -174,6 +174,12 @@ Definition child_directly_bytes (ans : line -> line) (bs : list Z) : list Z :=
 Lemma all_some_map_Some {A} (xs : list A) : all_some (map Some xs) = Some xs.
 Proof. induction xs as [|x r IH]; simpl; [reflexivity|]. rewrite IH. reflexivity. Qed.
 
+(* NOT COVERED / open finding F22 (known_findings.d/C04.json): [bs] and the child's answer stream are PLAIN byte
+   streams.  The real tool reads both through util::FilePiece, which takes a stream STARTING with a gzip / bzip2 /
+   xz magic for a compressed one: `echo 'BZhello world' | cache cat` aborts (BZException), likewise a child whose
+   first answer starts with such bytes.  For those inputs the statement below is REFUTED for the real tool (the
+   check reproduces it and prints KNOWN-FINDING); [records] has no notion of decompression, so the theorem is
+   about inputs and answer streams that do not start with one of the three magics. *)
 (* for all byte inputs, all per-line children and every key function that does not collide ON THE LINES OF
    THE INPUT (the only assumption; it is about the input at hand, not about all strings):
    cache's stdout is byte for byte the child's own output *)
